@@ -114,3 +114,28 @@ Fixpoint nodupb_str (l : list str) : bool :=
    names could be mistaken for an operator node *)
 Definition shape_domain (m : model) : bool :=
   nodupb_str (rel_ids m) && forallb (fun id => negb (is_op_id id)) (named_ids m).
+
+(* ---- which models the builder takes at all: every tuple-to-userset names a tupleset with type restrictions all of
+        whose parent types define the computed relation (Proofs/BuilderValid.v) ---- *)
+Definition ttu_valid (m : model) (td : typedef) (ts cu : str) : bool :=
+  match assoc ts (td_meta_rels td) with
+  | None => false
+  | Some rm =>
+      match rm_types rm with
+      | [] => false
+      | refs => forallb (fun r => type_and_relation_exists m (rr_type r) cu) refs
+      end
+  end.
+
+Fixpoint rewrite_valid (m : model) (td : typedef) (u : userset) : bool :=
+  match u with
+  | UTTU ts cu => ttu_valid m td ts cu
+  | UUnion cs | UInter cs => forallb (rewrite_valid m td) cs
+  | UDiff b s => rewrite_valid m td b && rewrite_valid m td s
+  | _ => true
+  end.
+
+Definition type_valid (m : model) (td : typedef) : bool :=
+  forallb (fun r => rewrite_valid m td (match assoc r (td_rels td) with Some u => u | None => UUnset end)) (keys (td_rels td)).
+Definition model_valid (m : model) : bool := forallb (type_valid m) (m_types m).
+
